@@ -58,6 +58,26 @@ def model_dict(model, ctx):
         s = _val_str(v)
         if s is not None:
             out[name] = s
+    # angle inputs: the solver reasons about the Weierstrass symbol w = tan(a/2); the angle symbol itself is only loosely tied to it (range
+    # assumptions).  For the float replay the angle is made consistent with w: a = 2 atan(w) + 2 pi k, k chosen nearest to the model's own value.
+    import math
+    by_id = {sym.get_id(): name for name, sym in ctx.inputs.items() if not z3.is_bool(sym)}
+    for ent in getattr(ctx, "atom_list", []):
+        try:
+            kind, w, arg = ent
+            if kind != "w" or arg.e or not z3.is_expr(arg.n) or arg.n.get_id() not in by_id:
+                continue
+            name = by_id[arg.n.get_id()]
+            wv = model.eval(w, model_completion=True)
+            ws = _val_str(wv)
+            if ws is None or name not in out:
+                continue
+            a_old = float(Fraction(out[name]))
+            a_new = 2.0 * math.atan(float(Fraction(ws)))
+            a_new += 2.0 * math.pi * round((a_old - a_new) / (2.0 * math.pi))
+            out[name] = str(Fraction(a_new))
+        except Exception:
+            continue
     return out
 
 
